@@ -86,7 +86,10 @@ void RpcChannel::onRpcMessage(const TcpConnectionPtr& conn,
   if (message.type() == RESPONSE)
   {
     int64_t id = message.id();
-    assert(message.has_response() || message.has_error());
+    // The message comes from the peer: it may carry a response, an error,
+    // both or neither.  Whatever it carries, the call it answers is completed
+    // exactly once; without a response field the caller's response object is
+    // left as it is (same as for an error reply).
 
     OutstandingCall out = { NULL, NULL };
 
